@@ -23,8 +23,10 @@ import vlib
 from gen import c07_runs as R
 
 ID = "C07"
-PROPS = ["IsoVerif/Props/C07.lean", "IsoVerif/Props/C07Pool.lean", "IsoVerif/Props/C07Multi.lean", "IsoVerif/Props/C07Opts.lean"]
-TARGETS = ["IsoVerif.Props.C07", "IsoVerif.Props.C07Pool", "IsoVerif.Props.C07Multi", "IsoVerif.Props.C07Opts"]
+PROPS = ["IsoVerif/Props/C07.lean", "IsoVerif/Props/C07Pool.lean", "IsoVerif/Props/C07Multi.lean", "IsoVerif/Props/C07Opts.lean",
+         "IsoVerif/Props/C07Ref.lean"]
+TARGETS = ["IsoVerif.Props.C07", "IsoVerif.Props.C07Pool", "IsoVerif.Props.C07Multi", "IsoVerif.Props.C07Opts",
+           "IsoVerif.Props.C07Ref"]
 GEN_DEPS = []
 LEVEL = "proof"
 RULE = ("a case = one (configuration, kill point k, phase before/after) of the real pipeline; non-trivial when the kill "
@@ -34,19 +36,31 @@ RULE = ("a case = one (configuration, kill point k, phase before/after) of the r
         "--sqanti_output run, the two-experiment invocation)")
 TRUSTED = ["harness/c07_wrap.py observes open()/gzip.open()/os.remove() and flush/close of files opened through builtins.open; "
            "writes through other channels (sqlite, pysam, pyfaidx) are not observed and lie outside the modelled stages",
-           "SIGKILL of the process group stands for an interruption; data handed to the OS (flush/close) survives it"]
+           "pyfaidx writes the FASTA index `<reference>.fai` in place, after `.params` was saved, when it is missing or older than "
+           "the FASTA; this write is taken as atomic (known finding C07 `fai_index_partial`: a kill inside it leaves an index "
+           "that is cut at a line boundary and newer than the FASTA, which every later run trusts)",
+           "SIGKILL of the whole process group (main process and pool workers together) stands for an interruption; data handed to "
+           "the OS (flush/close) survives it; a kill of the main process alone, after which workers of the killed run keep writing "
+           "while a resumed run starts, is not covered"]
 ASSUMPTIONS = ["content tokens: a file is `good` iff it is the complete output of a correct computation; recomputing a stage "
                "from good inputs yields the same bytes (determinism is the subject of C06/C10)",
                "final files are compared modulo the `# Command line` / version header lines (a resumed run records its own command line)",
                "BAM input (or --read_assignments), default options except genedb / read_group / keep_tmp / sqanti_output / threads / "
                "count_exons / no_model_construction / gzipped outputs (final .gz files are compared by their decompressed content: the "
-               "gzip header carries the time of the run) / high_memory (a resumed run is a --high_memory run iff the flag is "
-               "repeated on the resume command line: the harness tells the model which); "
+               "gzip header carries the time of the run) / high_memory (a resumed run is a --high_memory run iff the killed run was one "
+               "or the flag is given on the resume command line: the harness tells the model what the resume command line carried; "
+               "observed through the read accesses to the save files - a run that is not a --high_memory run reads them back after "
+               "the collection); "
                "several experiments (--bam_list): every experiment is one run of the model in its own folder (`.params` shared, "
                "written once; a resumed invocation goes through every experiment again), the model configuration of a later "
                "experiment carries `carried` = an earlier experiment has unaligned reads; the tables combined over the experiments "
                "are outside the model and compared as final outputs",
                "a truncated pickle or terminated binary stream makes its reader raise (observed: AssertionError, EOFError)",
+               "plain-gzip reference (GzRefSession): the copy unpacked into the output folder is path class `refFa`; kill phase `w` "
+               "(inside the copy: the first 64 KiB piece is in the file) is the model state after `commit refFa stale` (a readable "
+               "FASTA with fewer sequences); the index "
+               "pyfaidx builds for the copy is written next to the compressed file, outside the output folder (every run works on "
+               "its own copy of the compressed file)",
                "process pool (--threads 2..4): the model's pool run (Model/ResumePool.lean) takes the schedule of each parallel stage "
                "as an argument; the harness reads the schedule off the observed trace (which task performed the next mutation) and "
                "compares the whole global mutation sequence, the files at the kill, the verdict and the resumed run's sequence; in a "
@@ -56,11 +70,16 @@ ASSUMPTIONS = ["content tokens: a file is `good` iff it is the complete output o
                "kill points of pool runs are sampled (the mutation numbering is schedule dependent); all kill points of --threads 1 "
                "runs are enumerated in the thorough tier"]
 
-VARIANT_FIXED = {"flushBeforeLock": True, "dropProcessed": True, "locksFirst": True, "countUnaligned": True}
+VARIANT_FIXED = {"flushBeforeLock": True, "dropProcessed": True, "locksFirst": True, "countUnaligned": True,
+                 "refRewrite": True}
 # development aid only (docs/C07.md, "the pinned variant against the pinned tree"): VERIF_C07_VARIANT=pinned compares a
 # checkout of the tree before the fix: commits (VERIF_REPO) with the model's `pinned` variant
 if os.environ.get("VERIF_C07_VARIANT") == "pinned":
     VARIANT_FIXED = {k: False for k in VARIANT_FIXED}
+# development aid (docs/C07.md, "the unpacked reference: the old behaviour against the old tree"): VERIF_C07_REF_ORIG=1
+# compares a tree without the repair of DatasetProcessor.__init__ with the model's `refRewrite = false` behaviour
+if os.environ.get("VERIF_C07_REF_ORIG") == "1":
+    VARIANT_FIXED = dict(VARIANT_FIXED, refRewrite=False)
 
 SUFFIX = {"corrected_reads.bed": "bed", "read_assignments.tsv": "assign", "transcript_models.gtf": "gtf",
           "transcript_model_reads.tsv": "r2t", "extended_annotation.gtf": "ext", "gene_counts.tsv": "gene",
@@ -155,6 +174,25 @@ def canon_trace(trace, table):
     return muts, commits, unknown
 
 
+def save_reads(trace, table):
+    """how often every save file was opened for reading (wrapper lines `- read <path>`): {json path: count}"""
+    res = {}
+    for n, op, rel in trace:
+        if n is None and op == "read":
+            mp = table.get(rel)
+            if mp is not None and mp[0] == "save":
+                res[json.dumps(mp)] = res.get(json.dumps(mp), 0) + 1
+    return res
+
+
+def model_save_reads(reads):
+    res = {}
+    for mp in reads or []:
+        if mp[0] == "save":
+            res[json.dumps(mp)] = res.get(json.dumps(mp), 0) + 1
+    return res
+
+
 def model_muts(evs):
     """model events -> (mutations [(event index, op, path)], commits [(gap, path, token)])"""
     muts, commits = [], []
@@ -236,12 +274,14 @@ def opts_configs(ctx):
     outputs (no --no_gzip), --high_memory (kept or dropped by the resume command line).  Two small ones in the quick tier
     (every option is on in one of them whatever the seed), the same two + two random ones in the thorough tier"""
     rng = ctx.rng
-    a = {"n": rng.choice([1, 2]), "genedb": True, "rg": rng.choice(["inline", "file"]), "keep_tmp": rng.random() < 0.25,
+    # A is always a --keep_tmp run continued with `--resume` alone (an option --resume must restore: its loss shows as
+    # clean-up events of the resumed run), B always a --high_memory run continued with `--resume` alone (read accesses)
+    a = {"n": rng.choice([1, 2]), "genedb": True, "rg": rng.choice(["inline", "file"]), "keep_tmp": True,
          "unmapped": rng.random() < 0.5, "seed": rng.randrange(10 ** 6), "opts": True,
          "count_exons": True, "gzip": True, "high_memory": rng.random() < 0.5, "resume_high_memory": rng.random() < 0.5}
     b = {"n": rng.choice([1, 2]), "genedb": rng.random() < 0.7, "rg": rng.choice(["none", "inline"]), "keep_tmp": False,
          "unmapped": rng.random() < 0.5, "seed": rng.randrange(10 ** 6), "opts": True,
-         "no_model": True, "high_memory": True, "resume_high_memory": rng.random() < 0.5, "gzip": rng.random() < 0.5,
+         "no_model": True, "high_memory": True, "resume_high_memory": False, "gzip": rng.random() < 0.5,
          "count_exons": rng.random() < 0.5}
     res = [a, b]
     if ctx.tier != "quick":
@@ -296,10 +336,14 @@ class Session:
                 "unmapped": bool(self.cfg.get("unmapped")), "fromSaves": self.from_saves,
                 "sqanti": bool(self.cfg.get("sqanti")), "countExons": bool(self.cfg.get("count_exons")),
                 "noModel": bool(self.cfg.get("no_model")), "gzip": bool(self.cfg.get("gzip")),
-                "highMemory": bool(self.cfg.get("high_memory"))}
+                "highMemory": bool(self.cfg.get("high_memory")), "gzRef": bool(self.cfg.get("gz_ref"))}
 
     def resume_opts(self):
-        """what the resume command line sets: `--resume` alone runs without --high_memory whatever the killed run had"""
+        """what the resume command line sets: `--resume [--high_memory]`; an option that is not repeated keeps the value of
+        the killed run (development aid VERIF_C07_RESUME_ORIG=1: the resume parser before the repair, --high_memory always
+        overridden)"""
+        if os.environ.get("VERIF_C07_RESUME_ORIG") == "1":
+            return {"resumeHM": bool(self.cfg.get("resume_high_memory")), "resumeKT": False, "resumeOrig": True}
         return {"resumeHM": bool(self.cfg.get("resume_high_memory")), "resumeKT": False}
 
     def leftover_fs(self, outdir, good=()):
@@ -462,6 +506,98 @@ class OptsSession(Session):
         return sorted(set(special + ctx.rng.sample(rest, min(len(rest), 8))))
 
 
+class GzRefSession(Session):
+    """the reference is gzip- but not bgzip-compressed: DatasetProcessor.__init__ unpacks it into <out>/<name> right after
+    `.params` was saved (path class `refFa`, model stage `refStage`).  Every run works on its own copy of the compressed
+    file (pyfaidx writes the index of the unpacked copy next to the *compressed* file).  With `stale_ref` the output folder
+    holds the remains of an earlier, finished run on ANOTHER reference with the same file name (the genome without one
+    chromosome that has reads): its unpacked copy carries the name this run will use; the run under test is started
+    over it with --force.  Kill points: around the unpack in all phases - before the open, right after it (empty file),
+    inside the copy (phase `w`: the first 64 KiB piece is in the file), before the next mutation - + every lock + a sample"""
+    kind = "gzref"
+
+    def __init__(self, base, idx, cfg, data=None):
+        if cfg.get("stale_ref"):
+            self.history = {"kind": "stale_ref"}
+        Session.__init__(self, base, idx, cfg, data)
+
+    def setup(self):
+        self.table = dict(self.table)
+        self.table[R.GZ_REF_NAME] = ["refFa"]
+        if not self.cfg.get("stale_ref"):
+            return
+        # the earlier run: same flags, a reference of the same name without the first chromosome of the BAM header
+        import gzip
+        self.tmpl = os.path.join(self.dir, "earlier")
+        os.makedirs(os.path.join(self.tmpl, "ref"), exist_ok=True)
+        other = os.path.join(self.tmpl, "ref", R.GZ_REF_NAME + ".gz")
+        drop = self.data["bchrs"][0]
+        with open(self.data["paths"]["ref"]) as f, gzip.open(other, "wt") as g:
+            keep = True
+            for line in f:
+                if line.startswith(">"):
+                    keep = line[1:].split()[0] != drop
+                if keep:
+                    g.write(line)
+        rc, log, tr = R.run_wrapped(self.tmpl, self.cfg, self.data, args=R.cli_args(self.cfg, self.data, ref=other),
+                                    state="state_earlier")
+        self.earlier_rc = rc
+        self.fs0 = self.leftover_fs(os.path.join(self.tmpl, "out"))
+
+    def prepare(self, wd):
+        os.makedirs(os.path.join(wd, "ref"), exist_ok=True)
+        shutil.copy(self.data["paths"]["ref_gz"], os.path.join(wd, "ref", R.GZ_REF_NAME + ".gz"))
+        if self.cfg.get("stale_ref"):
+            shutil.copytree(os.path.join(self.tmpl, "out"), os.path.join(wd, "out"))
+
+    def args(self, wd, threads=1):
+        return R.cli_args(self.cfg, self.data, threads=threads, force=bool(self.cfg.get("stale_ref")),
+                          ref=os.path.join(wd, "ref", R.GZ_REF_NAME + ".gz"))
+
+    def points(self, ctx):
+        first, last = self.first_point(), self.muts[-1][0]
+        kr = next((n for n, o, p in self.muts if p == ["refFa"] and o == "create"), None)
+        around = [] if kr is None else [(kr, "b"), (kr, "a"), (kr, "w"), (kr + 1, "b")]
+        allp = [(k, ph) for k in range(first, last + 1) for ph in "ba"]
+        if ctx.tier != "quick":
+            if self.cfg.get("stale_ref"):
+                return sorted(set(around + allp))          # all kill points over the stale copy
+            early = [(k, ph) for k in range(first, min(first + 30, last + 1)) for ph in "ba"]
+            rest = [p for p in allp if p not in early]
+            return sorted(set(around + early + ctx.rng.sample(rest, min(len(rest), 80))))
+        locks = [(n, x) for n, o, p in self.muts if n >= first and o == "create" and p[0] in ("collected", "processed", "lock")
+                 for x in "ab"]
+        if len(locks) > 6:
+            locks = ctx.rng.sample(locks, 6)
+        rest = [p for p in allp if p not in locks and p not in around]
+        return sorted(set(around + locks + ctx.rng.sample(rest, min(len(rest), 4))))
+
+
+class FaiSession(Session):
+    """oracle only (known finding `fai_index_partial`, docs/C07.md D2): pyfaidx writes a missing `<reference>.fai` in place
+    after `.params` was saved.  To see that write, the (uncompressed, unindexed) reference is put *inside* the output folder
+    (`<out>/ref/`): the wrapper then numbers the `open("w")` of the index like any other mutation and can kill the run
+    right after it - the index exists, is empty and is newer than the FASTA.  Not part of the correspondence: the model
+    has no path class for the index (trusted base: the index write is taken as atomic)."""
+    kind = "fai"
+    FASTA = "ref/genome.fa"
+
+    def setup(self):
+        self.table = dict(self.table)
+        self.table[self.FASTA + ".fai"] = ["refFai"]
+
+    def prepare(self, wd):
+        os.makedirs(os.path.join(wd, "out", "ref"), exist_ok=True)
+        shutil.copy(self.data["paths"]["ref"], os.path.join(wd, "out", self.FASTA))
+
+    def args(self, wd, threads=1):
+        return R.cli_args(self.cfg, self.data, threads=threads, ref=os.path.join(wd, "out", self.FASTA))
+
+    def points(self, ctx):
+        kf = next((n for n, o, p in self.muts if p == ["refFai"] and o == "create"), None)
+        return [] if kf is None else [(kf, "a"), (kf, "b")]
+
+
 class SqantiSession(Session):
     """`--sqanti_output` on the toy data (the synthetic transcripts give no rows for the SQANTI-like table); an output
     prefix that does not occur in `SQANTI` (merge_files replaces the last occurrence of the prefix in a file name)"""
@@ -607,6 +743,20 @@ def sessions(ctx):
                 st["sessions"].append(OptsSession(st["base"], 300 + i, cfg))
                 ctx.count("config:opts:count_exons=%s,no_model=%s,gzip=%s,high_memory=%s,resume_high_memory=%s" % tuple(
                     bool(cfg.get(x)) for x in ("count_exons", "no_model", "gzip", "high_memory", "resume_high_memory")))
+            # a plain-gzip reference, unpacked into the output folder after `.params` (quick: over the remains of a run on
+            # another reference of the same name or in a fresh folder, by the seed; thorough: both)
+            for gi, stale in enumerate([ctx.rng.random() < 0.5] if ctx.tier == "quick" else [False, True]):
+                gcfg = {"n": 4, "genedb": ctx.rng.random() < 0.7, "rg": ctx.rng.choice(["none", "inline", "file"]),
+                        "keep_tmp": ctx.rng.random() < 0.3, "unmapped": ctx.rng.random() < 0.5,
+                        "seed": ctx.rng.randrange(10 ** 6), "gz_ref": True, "stale_ref": stale}
+                st["sessions"].append(GzRefSession(st["base"], 400 + gi, gcfg))
+                ctx.count("config:gz_ref,stale_ref=%s,genedb=%s,rg=%s,keep_tmp=%s" % (stale, gcfg["genedb"], gcfg["rg"], gcfg["keep_tmp"]))
+            # the FASTA index written by pyfaidx after `.params` (oracle only; known finding `fai_index_partial`); off by
+            # default until known_findings.json has the entry (VERIF_C07_FAI_PROBE=1 switches it on)
+            if os.environ.get("VERIF_C07_FAI_PROBE") == "1":
+                st["sessions"].append(FaiSession(st["base"], 450, {"n": 2, "genedb": False, "rg": "none", "keep_tmp": False,
+                                                                    "unmapped": False, "seed": 4711, "fai": True}))
+                ctx.count("config:fai_index_inside_output_folder")
             # --sqanti_output (toy data) and a two-experiment invocation with unaligned reads in both alignment files
             st["sessions"].append(SqantiSession(st["base"], 200, {"toy": True, "n": 1, "genedb": True, "rg": "none",
                                                                   "keep_tmp": False, "unmapped": False, "seed": 0,
@@ -626,9 +776,11 @@ def run_points(ctx, sess, pts):
 
 
 def model_index(m_muts, j, ph):
-    """number of model events executed when the run is killed before ('b') / right after ('a') its j-th mutation (1-based)"""
+    """number of model events executed when the run is killed before ('b') / right after ('a') its j-th mutation (1-based);
+    'w' = inside the write session the mutation opened (part of the content is in the file): in the model the state after
+    the partial commit that follows the open (`commit refFa stale`: the first pieces of the copy are in the file)"""
     i = m_muts[j - 1][0]
-    return i if ph == "b" else i + 1
+    return i if ph == "b" else (i + 2 if ph == "w" else i + 1)
 
 
 def correspondence(ctx):
@@ -638,8 +790,18 @@ def correspondence(ctx):
         if sess.clean_rc != 0:
             ctx.disagree("clean_run", {"config": sess.cfg, "history": sess.history}, "ok", {"rc": sess.clean_rc, "log": sess.clean_log})
             continue
+        # monitor of the theorems' hypothesis WF.b_sub (every reference contig is in the BAM header) and WF.m_iff
+        d = sess.data
+        if not set(d["chrs"]) <= set(d["bchrs"]) or set(d["chrs"]) != set(d["mchrs"]):
+            ctx.disagree("wf_monitor", {"config": sess.cfg, "history": sess.history},
+                         "reference contigs %s, BAM header %s, merge order %s" % (d["chrs"], d["bchrs"], d["mchrs"]), None)
+            continue
+        ctx.count("monitor:reference_contigs_subset_of_bam_header")
         if sess.kind == "multi":
             multi_check(ctx, sess, tag)
+            continue
+        if sess.kind == "fai":
+            ctx.count("oracle_only_session:fai")         # the index write has no place in the model (trusted base)
             continue
         mcfg = sess.model_cfg()
         ord1 = sess.cleanup_order(sess.muts)
@@ -662,6 +824,10 @@ def correspondence(ctx):
                          (d, real_seq[d:d + 2], model_seq[d:d + 2], len(real_seq), len(model_seq)))
         else:
             probs += completion_check(sess.muts, sess.commits, m_muts, m_commits)[:5]
+            # the save files are read back by prepare_multimapper_dict unless --high_memory (no mutation: seen as reads)
+            if save_reads(sess.trace, sess.table) != model_save_reads(out.get("reads")):
+                probs.append("read accesses to the save files differ: real %s, model %s" %
+                             (save_reads(sess.trace, sess.table), model_save_reads(out.get("reads"))))
         ctx.count("clean_trace_mutations", len(real_seq))
         if probs:
             ctx.disagree("clean_trace", {"config": sess.cfg, "history": sess.history}, probs, None)
@@ -715,6 +881,13 @@ def correspondence(ctx):
             if mr != rr and r["verdict"] != "FAIL":
                 d = next((x for x, (a, b) in enumerate(zip(rr, mr)) if a != b), min(len(rr), len(mr)))
                 bad.append("resumed traces differ at %d: real %s, model %s" % (d, rr[d:d + 2], mr[d:d + 2]))
+            # the memory mode of the resumed run (restored from `.params` unless the resume command line switches it on):
+            # a run that is not a --high_memory run reads every save file back after the collection
+            if r["verdict"] != "FAIL" and save_reads(r.get("resume_trace", []), sess.table) != model_save_reads(mo["resumed"].get("reads")):
+                bad.append("resumed run, read accesses to the save files: real %s, model %s (memory mode of the resumed run)" %
+                           (save_reads(r.get("resume_trace", []), sess.table), model_save_reads(mo["resumed"].get("reads"))))
+            if sess.cfg.get("high_memory"):
+                ctx.count("kill_points:killed_run_high_memory,resume_cmdline_high_memory=%s" % bool(sess.cfg.get("resume_high_memory")))
             if bad:
                 ctx.disagree("crash_point", inp, bad, r["verdict"])
             else:
@@ -1171,7 +1344,7 @@ def classify(sess, k, ph):
     if not m:
         return "unknown"
     o, p = m[0]
-    when = "after" if ph == "a" else "before"
+    when = {"a": "after", "w": "during_write"}.get(ph, "before")
     return "%s_%s_%s" % (when, o, p[0])
 
 
@@ -1180,8 +1353,10 @@ def judge(ctx, sess, k, ph, r, threads=1):
         return
     kind = ("resume_silently_wrong:" if r["verdict"] == "DIFF" else "resume_fails:") + \
         ("" if sess.kind == "plain" else sess.kind + ":") + classify(sess, k, ph)
+    if sess.kind == "fai" and classify(sess, k, ph) == "after_create_refFai":
+        kind = "fai_index_partial"                   # the known finding: an index left empty by the kill is trusted
     ctx.fail(kind, {"config": sess.cfg, "history": sess.history, "k": k, "phase": ph, "threads": threads},
-             "kill %s mutation %d %s; --resume: %s %s" % ("after" if ph == "a" else "before", k,
+             "kill %s mutation %d %s; --resume: %s %s" % ({"a": "after", "w": "inside the write session of"}.get(ph, "before"), k,
                                                           [[o, p] for n, o, p in sess.muts if n == k], r["verdict"], r["detail"][:400]))
 
 
@@ -1255,6 +1430,10 @@ def replay(ctx, failure):
             sess = SqantiSession(base, 0, cfg, data)
         elif cfg.get("opts"):
             sess = OptsSession(base, 0, cfg, data)
+        elif cfg.get("gz_ref"):
+            sess = GzRefSession(base, 0, cfg, data)
+        elif cfg.get("fai"):
+            sess = FaiSession(base, 0, cfg, data)
         else:
             sess = Session(base, 0, cfg, data)
         if sess.clean_rc != 0:
